@@ -56,17 +56,31 @@
    TOGGLES.  C04_freeze_unfreeze_identity, C04_pause_unpause_identity: balances untouched, flag clear, exact
    entry afterwards (original up to Properties = [0;0]; absent stays absent; an entry of value 0 is deleted);
    C04_*_restores_observables: if the flag was clear before, frozen_at / paused_at / balance of every account and
-   key are as before — these are the only state observables the gates and funds checks read
-   (C04_gate_reads_flag_only, C04_stored_or_deleted_by_flags, C04_toggled_props_neutral).
-   NOT A THEOREM: that whole later runs of exec from the two states agree (`props_irrelevance`): outputs may
-   differ by the explicit [0;0] Properties bytes inside forwarded NFT payloads (and the data-copy gas for them).
-   That part of "restores exactly the earlier behaviour" is tied by the harness monitor toggle-not-restoring. *)
+   key are as before (C04_gate_reads_flag_only, C04_stored_or_deleted_by_flags, C04_toggled_props_neutral: the
+   two readers of the Properties bytes see them only through frozen_props / all_zero).
+   "RESTORES EXACTLY THE EARLIER BEHAVIOUR" (LedgerProofs/C04_Sim.v, relational simulation).  The state after
+   freeze ; unfreeze is NOT the state before (Properties [] became [0;0]: C04_ex_toggle_runs), so this is a theorem
+   about two runs: [SR E strict s u] relates states that differ only in such Properties bytes of token entries
+   (strict = true: of entries without metadata, i.e. fungible entries) and in pause-flag cells with the same flag;
+     C04_freeze_unfreeze_SR / C04_pause_unpause_SR   the toggles lead to an SR-related state
+     C04_props_irrelevance          strict: EVERY function, both sides, gives the same status (Ok / same error /
+                                    panic), the same output and SR-related post-states from SR-related states
+     C04_props_irrelevance_history  ... hence the same results along every later history of calls
+     C04_props_irrelevance_partial  non-strict (a toggled entry WITH metadata — only reachable by addressing
+                                    freeze to "token id ‖ nonce bytes"): all functions except the sender side of
+                                    ESDTNFTTransfer / MultiESDTNFTTransfer, where it is false (the forwarded payload
+                                    carries the Properties bytes: C04_props_irrelevance_nft_sender_refuted; DESIGN.md
+                                    notes the gas difference)
+     C04_SR_observables             SR-related states have equal balances and flags
+   Hypotheses: no_faults E (the two runs sit at different dependency-call indices of the fault plan) and the system
+   account is not a party of the call ([sys_not_party], [call_ok]): as a party its token cells would be read as
+   entries, and they hold the pause flags (F8 territory). *)
 From Coq.Strings Require Import String.
 From EV Require Import Base.Bytes Base.Store Base.Monad gen.Consts Codec.Types Codec.CodecOk Helpers.Helpers
   Ledger.Types Ledger.Env Ledger.Funcs Ledger.Transfers Corr.Exec
   LedgerProofs.Defs LedgerProofs.EnvSpec LedgerProofs.Spec_Transfers_Base LedgerProofs.Spec_Transfers_Multi
   LedgerProofs.Spec_Supply
-  LedgerProofs.C04_Core LedgerProofs.C04_Toggle LedgerProofs.C04_Examples.
+  LedgerProofs.C04_Core LedgerProofs.C04_Toggle LedgerProofs.C04_Sim LedgerProofs.C04_Examples.
 
 (* ---- pins: the constants and flags the property text names ---- *)
 Example C04_pinned_constants :
@@ -285,6 +299,93 @@ Proof. exact stored_or_deleted_by_flags. Qed.
 Theorem C04_toggled_props_neutral : frozen_props (flag_bytes false) = false /\ all_zero (flag_bytes false) = true.
 Proof. exact toggled_props_neutral. Qed.
 
+(* ============================ RESTORES THE EARLIER BEHAVIOUR ============================ *)
+(* the relation, written out *)
+Example C04_SR_unfolded : forall (E : env) strict s u t t',
+  (SR E strict s u <->
+     (forall a, acct_fields_eq (acct s a) (acct u a))
+     /\ (forall a k, a <> SYS -> ceq E strict (cell s a k) (cell u a k))
+     /\ (forall a k, prefix_of P k = false -> cell s a k = cell u a k)
+     /\ (forall k, paused_val (cell s SYS k) = paused_val (cell u SYS k)))
+  /\ (forall b c, ceq E strict b c <->
+         b = c \/ (b <> [] /\ c <> [] /\ exists t u, dec_tok (cdc E) b = Some t /\ dec_tok (cdc E) c = Some u /\ tokrel strict t u))
+  /\ (tokrel strict t t' <->
+         wf_token t /\ wf_token t' /\ t' = set_props t (t_props t')
+         /\ frozen_props (t_props t) = frozen_props (t_props t') /\ all_zero (t_props t) = all_zero (t_props t')
+         /\ (strict = true -> t_meta t <> None -> t = t')).
+Proof. intros. split; [reflexivity|]. split; [intros; reflexivity|reflexivity]. Qed.
+Example C04_party_unfolded : forall f i c,
+  (sys_not_party f i <->
+     f = C.BuiltInFunctionESDTPause \/ f = C.BuiltInFunctionESDTUnPause \/ (i_caller i <> SYS /\ i_rcpt i <> SYS))
+  /\ (nft_sender_side f i <->
+     (f = C.BuiltInFunctionESDTNFTTransfer \/ f = C.BuiltInFunctionMultiESDTNFTTransfer) /\ i_caller i = i_rcpt i)
+  /\ dst_arg C.BuiltInFunctionESDTNFTTransfer i = argn i 3 /\ dst_arg C.BuiltInFunctionMultiESDTNFTTransfer i = argn i 0
+  /\ (call_ok c <-> sys_not_party (fst c) (snd c) /\ (nft_sender_side (fst c) (snd c) -> dst_arg (fst c) (snd c) <> SYS)).
+Proof. intros. split; [reflexivity|]. split; [reflexivity|]. split; [reflexivity|]. split; reflexivity. Qed.
+
+(* freeze ; unfreeze of an entry that was not frozen, had all-zero Properties and a non-zero value (strict: and no
+   metadata) leads to an SR-related state; an absent entry stays absent, i.e. the same state *)
+Theorem C04_freeze_unfreeze_SR : forall (E : env), codec_ok (cdc E) -> forall strict i1 i2 s o1 s1 o2 s2,
+  exec E C.BuiltInFunctionESDTFreeze i1 s = (Ok o1, s1) ->
+  exec E C.BuiltInFunctionESDTUnFreeze i2 s1 = (Ok o2, s2) ->
+  i_rcpt i2 = i_rcpt i1 -> i_args i2 = i_args i1 ->
+  i_rcpt i1 <> SYS ->
+  (forall t, tok_at E s (i_rcpt i1) (P ++ argn i1 0) = Some t ->
+             frozen_props (t_props t) = false /\ all_zero (t_props t) = true /\ val_or_0 t <> 0%Z
+             /\ (strict = true -> t_meta t = None)) ->
+  SR E strict s s2.
+Proof. exact freeze_unfreeze_SR. Qed.
+Theorem C04_pause_unpause_SR : forall (E : env) strict i1 i2 s o1 s1 o2 s2,
+  exec E C.BuiltInFunctionESDTPause i1 s = (Ok o1, s1) ->
+  exec E C.BuiltInFunctionESDTUnPause i2 s1 = (Ok o2, s2) ->
+  i_args i2 = i_args i1 ->
+  paused_at s (P ++ argn i1 0) = false ->
+  SR E strict s s2.
+Proof. exact pause_unpause_SR. Qed.
+Theorem C04_SR_observables : forall (E : env), codec_ok (cdc E) -> forall strict s u, SR E strict s u ->
+  (forall a k, a <> SYS -> balance E s a k = balance E u a k)
+  /\ (forall a k, a <> SYS -> frozen_at E s a k = frozen_at E u a k)
+  /\ (forall k, paused_at s k = paused_at u k).
+Proof. exact SR_observables. Qed.
+
+(* every function, both sides: same status, same output, related post-states *)
+Theorem C04_props_irrelevance : forall (E : env), codec_ok (cdc E) -> no_faults E -> forall strict f i s u,
+  strict = true -> SR E strict s u -> sys_not_party f i -> (nft_sender_side f i -> dst_arg f i <> SYS) ->
+  match exec E f i s, exec E f i u with
+  | (Ok o, s'), (Ok o', u') => o = o' /\ SR E strict s' u'
+  | (Err e, _), (Err e', _) => e = e'
+  | (Panic, _), (Panic, _) => True
+  | _, _ => False
+  end.
+Proof. exact props_irrelevance. Qed.
+(* ... along any later history (a failed call is rolled back) *)
+Theorem C04_props_irrelevance_history : forall (E : env), codec_ok (cdc E) -> no_faults E -> forall strict l,
+  strict = true -> Forall call_ok l -> forall s u, SR E strict s u ->
+  fst (run_calls E l s) = fst (run_calls E l u) /\ SR E strict (snd (run_calls E l s)) (snd (run_calls E l u)).
+Proof. exact props_irrelevance_history. Qed.
+Example C04_run_calls_unfolded : forall (E : env) c r s,
+  run_calls E [] s = ([], s)
+  /\ run_calls E (c :: r) s = (let (o, s1) := step1 E c s in let (os, s2) := run_calls E r s1 in (o :: os, s2))
+  /\ step1 E c s = match exec E (fst c) (snd c) s with (Ok o, s') => (Ok o, s') | (x, _) => (x, s) end.
+Proof. intros. repeat split. Qed.
+(* entries with metadata too: everything but the sender side of the two NFT transfers *)
+Theorem C04_props_irrelevance_partial : forall (E : env), codec_ok (cdc E) -> no_faults E -> forall strict f i s u,
+  SR E strict s u -> ~ nft_sender_side f i -> sys_not_party f i ->
+  match exec E f i s, exec E f i u with
+  | (Ok o, s'), (Ok o', u') => o = o' /\ SR E strict s' u'
+  | (Err e, _), (Err e', _) => e = e'
+  | (Panic, _), (Panic, _) => True
+  | _, _ => False
+  end.
+Proof. exact props_irrelevance_partial. Qed.
+(* the exclusion is necessary: an NFT entry with toggled Properties is forwarded with them *)
+Theorem C04_props_irrelevance_nft_sender_refuted :
+  SR EI false s_nft s_nft2
+  /\ is_ok (exec EI C.BuiltInFunctionESDTNFTTransfer in_nft s_nft) = true
+  /\ is_ok (exec EI C.BuiltInFunctionESDTNFTTransfer in_nft s_nft2) = true
+  /\ fst (exec EI C.BuiltInFunctionESDTNFTTransfer in_nft s_nft) <> fst (exec EI C.BuiltInFunctionESDTNFTTransfer in_nft s_nft2).
+Proof. exact props_irrelevance_nft_sender_refuted. Qed.
+
 (* ============================ non-vacuity (ideal_codec, which is codec_ok) ============================ *)
 Example C04_env_codec_ok : codec_ok (cdc EI). Proof. exact EI_ok. Qed.
 Example C04_ex_states :
@@ -360,6 +461,23 @@ Example C04_ex_entry_level_flag_does_not_gate_other_nonces :
   /\ balance EI (post r) alice (P ++ tokA) = 5%Z.
 Proof. exact ex_entry_level_flag_does_not_gate_other_nonces. Qed.
 
+(* toggling really changes the stored bytes, and the resulting state is SR-related and behaves the same *)
+Example C04_ex_toggle_runs :
+  is_ok (exec EI C.BuiltInFunctionESDTFreeze in_fr s_plain) = true
+  /\ is_ok (exec EI C.BuiltInFunctionESDTUnFreeze in_fr s_fr1) = true
+  /\ frozen_at EI s_fr1 alice (P ++ tokA) = true /\ frozen_at EI s_fr2 alice (P ++ tokA) = false
+  /\ cell s_fr2 alice (P ++ tokA) <> cell s_plain alice (P ++ tokA)
+  /\ tok_at EI s_plain alice (P ++ tokA) = Some (tk 5 []) /\ tok_at EI s_fr2 alice (P ++ tokA) = Some (tk 5 [x00; x00]).
+Proof. exact ex_toggle_runs. Qed.
+Example C04_inst_freeze_unfreeze_SR : no_faults EI /\ SR EI true s_plain s_fr2.
+Proof. exact (conj EI_nf inst_freeze_unfreeze_SR). Qed.
+Example C04_inst_props_irrelevance :
+  exists o s' u', exec EI C.BuiltInFunctionESDTTransfer in_ac s_plain = (Ok o, s')
+    /\ exec EI C.BuiltInFunctionESDTTransfer in_ac s_fr2 = (Ok o, u')
+    /\ SR EI true s' u'
+    /\ balance EI s' carol (P ++ tokA) = 6%Z /\ balance EI u' carol (P ++ tokA) = 6%Z.
+Proof. exact inst_props_irrelevance. Qed.
+
 Print Assumptions C04_frozen_no_balance_change.
 Print Assumptions C04_frozen_entry_untouched.
 Print Assumptions C04_frozen_no_balance_change_refuted.
@@ -379,3 +497,12 @@ Print Assumptions C04_stored_or_deleted_by_flags.
 Print Assumptions C04_toggled_props_neutral.
 Print Assumptions C04_inst_frozen_no_balance_change.
 Print Assumptions C04_inst_paused_no_balance_change.
+Print Assumptions C04_freeze_unfreeze_SR.
+Print Assumptions C04_pause_unpause_SR.
+Print Assumptions C04_SR_observables.
+Print Assumptions C04_props_irrelevance.
+Print Assumptions C04_props_irrelevance_history.
+Print Assumptions C04_props_irrelevance_partial.
+Print Assumptions C04_props_irrelevance_nft_sender_refuted.
+Print Assumptions C04_inst_freeze_unfreeze_SR.
+Print Assumptions C04_inst_props_irrelevance.
